@@ -1309,6 +1309,31 @@ def replay(ctx, path):
         print("replayed %s: violated rules now: %s (recorded: %s)" % (path, tags, v["tag"]))
         print(open(out).readline().strip()[:600])
         return 1 if v["tag"] in tags else 0
+    if v.get("family") == "lifecycle" and v.get("calls"):
+        import subprocess
+        d = ctx.sub("life-replay")
+        inp, out = os.path.join(d, "beh.ndjson"), os.path.join(d, "trace.ndjson")
+        open(inp, "w").write(json.dumps(v["calls"]) + "\n")
+        p = subprocess.run([ctx.yvh, "life", "-in", inp, "-out", out], capture_output=True, text=True)
+        if p.returncode != 0:
+            raise Infra("life driver failed: " + p.stderr[-2000:])
+        tags = sorted({x["tag"] for x in validate(ctx, [out], module="LifecycleTrace", cfg="life_trace.cfg")})
+        print("replayed %s: violated rules now: %s (recorded: %s)" % (path, tags, v["tag"]))
+        print(open(out).read()[-1500:])
+        return 1 if v["tag"] in tags else 0
+    if v.get("family") == "yson-literals" and v.get("value") is not None:
+        print("replay of a YSON literal: the value was %s\nexported text: %s\nerrors: %s\n(re-run `bin/check C18` to judge it again: the literals are enumerated, not sampled)"
+              % (json.dumps(v["value"])[:500], v.get("text"), v.get("errors")))
+        return 0
+    if not v.get("behaviour"):
+        # free-running parts (stress, pubsub histories, watch, lru, change store, tree catalogue cells): there is no
+        # schedule to force again - the whole check is the replay
+        print("no recorded behaviour for family %s: re-running the check" % v.get("family"))
+        fn = CHECKS[v["property"]]
+        level, viols, known, cov, assumptions = fn(ctx)
+        tags = sorted({x["tag"] for x in viols})
+        print("violated now: %s (recorded: %s)" % (tags, v["tag"]))
+        return 1 if v["tag"] in tags else 0
     traces = execute(ctx, [v["behaviour"]], "replay", server_flags=v.get("server_flags"), shards=1)
     viols = validate(ctx, traces)
     tags = sorted({x["tag"] for x in viols})
